@@ -358,7 +358,7 @@ where
                         (*a, (ac.dot.actor, ac.dot.counter), vclock_to(&ac.clock))
                     })
                     .collect();
-                v.push(CtxProbe { entry: $name, elem: $elem, add_clock: vclock_to(&r.add_clock), rm_clock: vclock_to(&r.rm_clock), derived: d, derived_rm: vclock_to(&$read.derive_rm_ctx().clock) });
+                v.push(CtxProbe { entry: $name, elem: $elem, add_clock: vclock_to(&r.add_clock), rm_clock: vclock_to(&r.rm_clock), derived: d, derived_rm: vclock_to(&$read.derive_rm_ctx().clock), note: None });
             }};
         }
         probe!("read_ctx".to_string(), None, s.read_ctx());
@@ -378,7 +378,13 @@ where
                     (*a, (ac.dot.actor, ac.dot.counter), vclock_to(&ac.clock))
                 })
                 .collect();
-            v.push(CtxProbe { entry: format!("keys()[{k}]"), elem: Some(format!("key:{k}")), add_clock: vclock_to(&e.add_clock), rm_clock: vclock_to(&e.rm_clock), derived: d, derived_rm: vclock_to(&e.rm_clock) });
+            v.push(CtxProbe { entry: format!("keys()[{k}]"), elem: Some(format!("key:{k}")), add_clock: vclock_to(&e.add_clock), rm_clock: vclock_to(&e.rm_clock), derived: d, derived_rm: vclock_to(&e.rm_clock), note: None });
+        }
+        v.push(split_probe("read_ctx", None, &|| s.read_ctx(), actors));
+        v.push(split_probe("len", None, &|| s.len(), actors));
+        v.push(split_probe("is_empty", None, &|| s.is_empty(), actors));
+        for k in universe(K) {
+            v.push(split_probe(&format!("get({k})"), Some(format!("key:{k}")), &|| s.get(&k), actors));
         }
         v
     }
